@@ -215,8 +215,23 @@ def merge_states(c, s1, s2):
             s.env.pop(k, None)   # scoped local of one branch
     for k in set(s1.scal) | set(s2.scal):
         a, b = s1.scal.get(k), s2.scal.get(k)
+        if (a is None or b is None) and not k.startswith(('ghost.', 'init:')):
+            # a field first touched (and possibly assigned) on one path only: on the other path it still has its initial
+            # value, i.e. the symbol a lazy read would have created there
+            have = a if a is not None else b
+            if isinstance(have, IntV) and have.ct is not None:
+                init = IntV(z3.Int(k), have.ct)
+            elif isinstance(have, RealV):
+                init = RealV(z3.Real(k), have.ct)
+            else:
+                init = None
+            if init is not None:
+                if a is None:
+                    a = init
+                else:
+                    b = init
         if a is None or b is None:
-            s.scal[k] = a if a is not None else b    # lazily created in one branch: same initial symbol
+            s.scal[k] = a if a is not None else b    # ghost bookkeeping / references: set on one path only
             continue
         m = merge_val(c, a, b)
         if m is None:
@@ -225,11 +240,28 @@ def merge_states(c, s1, s2):
     for k in set(s1.arr) | set(s2.arr):
         a, b = s1.arr.get(k), s2.arr.get(k)
         if a is None or b is None:
+            # the array was first looked at on one path only — and possibly modified there.  The other path still has the
+            # contents it had before: materialise its (pristine) symbol instead of silently adopting the modified one
+            lct = s1.leafct.get(k) or s2.leafct.get(k)
+            if lct is not None:
+                if a is None:
+                    a = s1.array(k[0], k[1], lct)
+                if b is None:
+                    b = s2.array(k[0], k[1], lct)
+        if a is None or b is None:
             s.arr[k] = a if a is not None else b
         elif not a.eq(b):
             s.arr[k] = z3.If(c, a, b)
+        else:
+            s.arr[k] = a
     for k in set(s1.length) | set(s2.length):
         a, b = s1.length.get(k), s2.length.get(k)
+        if (a is None or b is None) and not k.startswith(('local:', 'tmp:', 'heap:', 'new:', 'ret:', 'ghost.')):
+            # length of a caller-visible container first looked at on one path only: the other path has the initial length
+            if a is None:
+                a = s1.len_of(k)
+            else:
+                b = s2.len_of(k)
         if a is None or b is None:
             s.length[k] = a if a is not None else b
         elif not a.eq(b):
